@@ -404,7 +404,10 @@ def V1(ctx, subset=None):
         else:
             roots.append(i)
     nb_roots = [prog.ident(k) for k in NOT_BRANCH if prog.ident(k) is not None]
-    ea = EventAnalysis(prog, path_matcher({"schedule": SCHEDULE})).solve(roots + nb_roots)
+    # "every path" = every path of a live execution: the early returns of destructors under `!threads.is_active()` (deadlocked
+    # execution being torn down, C06/P2) are exempt
+    live = assume_scenario(prog, {"rt::thread::Set::is_active": True})
+    ea = EventAnalysis(prog, path_matcher({"schedule": SCHEDULE}), assume=live).solve(roots + nb_roots)
     n = 0
     for k in todo:
         i = prog.ident(k)
